@@ -130,6 +130,10 @@ def handle : Handler
               "I=" ++ showRun i ++ " C=" ++ showRun c
           | _ => "bad-op"
         | none => "bad-op"
+  | "S" :: rest =>
+      match parseE rest with
+      | some (e, []) => if e.safe PrimD.sem then "safe" else "unsafe"
+      | _ => "bad-op"
   | "P" :: op :: n :: rest =>
       match n.toNat? with
       | none => "bad-op"
